@@ -105,7 +105,10 @@ impl EndiannessRead for LittleEndian {
     }
 }
 
-const PID_SENTINEL: u16 = 1;
+const PID_SENTINEL: u32 = 1;
+const PID_EXTENDED: u32 = 0x3f01;
+/// A member id has 28 bits, the upper bits of an EMHEADER or extended parameter id are flags
+const MEMBER_ID_MASK: u32 = 0x0fffffff;
 
 trait EncodingVersion: Sized {
     fn align<'a, E: EndiannessRead>(
@@ -115,8 +118,8 @@ trait EncodingVersion: Sized {
 
     fn seek_to_pid<'a, E: EndiannessRead>(
         deserializer: &mut XTypesDeserializer<'a, E, Self>,
-        pid: u16,
-    ) -> XTypesResult<u16>;
+        pid: u32,
+    ) -> XTypesResult<u32>;
 
     /// Serialization Rule (9) & (10)
     fn deserialize_array_type<'a, E: EndiannessRead>(
@@ -209,19 +212,17 @@ impl EncodingVersion for EncodingVersion1 {
 
     fn seek_to_pid<'a, E: EndiannessRead>(
         deserializer: &mut XTypesDeserializer<'a, E, Self>,
-        pid: u16,
-    ) -> XTypesResult<u16> {
+        pid: u32,
+    ) -> XTypesResult<u32> {
         loop {
-            let current_pid: u16 = deserializer.deserialize_primitive_type()?;
-            let current_pid_without_flags = current_pid & 0b00111111_11111111;
-            let length: u16 = deserializer.deserialize_primitive_type()?;
-            if current_pid_without_flags == PID_SENTINEL && length == 0 {
+            let (current_pid, length) = Self::deserialize_parameter_header(deserializer)?;
+            if current_pid == PID_SENTINEL && length == 0 {
                 if pid == PID_SENTINEL {
                     return Ok(0);
                 } else {
-                    return Err(PidNotFound(pid));
+                    return Err(u16::try_from(pid).map_or(XTypesError::InvalidId(pid), PidNotFound));
                 }
-            } else if current_pid_without_flags == pid {
+            } else if current_pid == pid {
                 // PUSH( ORIGIN=0 ): the member value is aligned relative to its own start
                 deserializer.reader.origin = deserializer.reader.pos;
                 return Ok(length);
@@ -282,9 +283,8 @@ impl EncodingVersion for EncodingVersion1 {
         // member of a final type is the next element of the stream and the members that follow
         // are read after it
         Self::align(deserializer, 4)?;
-        let pid: u16 = deserializer.deserialize_primitive_type()?;
-        let length: u16 = deserializer.deserialize_primitive_type()?;
-        if pid & 0b00111111_11111111 != member.get_id() as u16 {
+        let (pid, length) = Self::deserialize_parameter_header(deserializer)?;
+        if pid != member.get_id() & MEMBER_ID_MASK {
             return Err(XTypesError::InvalidData);
         }
         let value_pos = deserializer.reader.pos;
@@ -331,7 +331,7 @@ impl EncodingVersion for EncodingVersion1 {
         dynamic_data: &mut DynamicData,
     ) -> XTypesResult<()> {
         Self::align(deserializer, 4)?;
-        let pid = member.get_id() as u16;
+        let pid = member.get_id() & MEMBER_ID_MASK;
         let orig_pos = deserializer.reader.pos;
         let orig_origin = deserializer.reader.origin;
         let result = if let Ok(length) = Self::seek_to_pid(deserializer, pid) {
@@ -346,8 +346,6 @@ impl EncodingVersion for EncodingVersion1 {
         deserializer.reader.pos = orig_pos;
         deserializer.reader.origin = orig_origin;
         result
-
-        // TODO (25) using long PL encoding
     }
 
     /// Unions with extensibility MUTABLE, version 1 encoding
@@ -409,6 +407,35 @@ impl EncodingVersion for EncodingVersion1 {
 }
 
 impl EncodingVersion1 {
+    /// Member id (without flags) and size of the member value from a parameter header in
+    /// the short (24) or the long PL encoding
+    ///
+    /// (25) XCDR[1] << {M : MMEMBER} =
+    ///                  XCDR
+    ///                   << ALIGN(4)
+    ///                   << { FLAG_I + FLAG_M + PID_EXTENDED : UInt16 }
+    ///                   << { slength=8 : UInt16 }
+    ///                   << { M.id : UInt32 }
+    ///                   << { M.value.ssize : UInt32 }
+    ///                   << PUSH( ORIGIN=0 )
+    ///                   << { M.value : M.value.type }
+    fn deserialize_parameter_header<'a, E: EndiannessRead>(
+        deserializer: &mut XTypesDeserializer<'a, E, Self>,
+    ) -> XTypesResult<(u32, u32)> {
+        let pid = deserializer.deserialize_primitive_type::<u16>()? as u32 & 0x3fff;
+        let length = deserializer.deserialize_primitive_type::<u16>()? as u32;
+        if pid == PID_EXTENDED {
+            if length != 8 {
+                return Err(XTypesError::InvalidData);
+            }
+            let id = deserializer.deserialize_primitive_type::<u32>()? & MEMBER_ID_MASK;
+            let ssize = deserializer.deserialize_primitive_type::<u32>()?;
+            Ok((id, ssize))
+        } else {
+            Ok((pid, length))
+        }
+    }
+
     /// Skips the members of a mutable type up to and including the end of its parameter list:
     ///   << { PID_SENTINEL : UInt16 }
     ///   << { length = 0 : UInt16 }
@@ -417,9 +444,8 @@ impl EncodingVersion1 {
         deserializer: &mut XTypesDeserializer<'a, E, Self>,
     ) -> XTypesResult<()> {
         loop {
-            let current_pid: u16 = deserializer.deserialize_primitive_type()?;
-            let length: u16 = deserializer.deserialize_primitive_type()?;
-            if current_pid & 0b00111111_11111111 == PID_SENTINEL && length == 0 {
+            let (current_pid, length) = Self::deserialize_parameter_header(deserializer)?;
+            if current_pid == PID_SENTINEL && length == 0 {
                 return Ok(());
             }
             deserializer.reader.seek(length as usize)?;
@@ -441,11 +467,11 @@ impl EncodingVersion for EncodingVersion2 {
 
     fn seek_to_pid<'a, E: EndiannessRead>(
         deserializer: &mut XTypesDeserializer<'a, E, Self>,
-        pid: u16,
-    ) -> XTypesResult<u16> {
+        pid: u32,
+    ) -> XTypesResult<u32> {
         loop {
             let emheader: u32 = deserializer.deserialize_primitive_type()?;
-            let current_pid = (emheader & 0x0fffffff) as u16;
+            let current_pid = emheader & MEMBER_ID_MASK;
             let lc = (emheader & 0b01110000_00000000_00000000_00000000) >> 28;
             let length = match lc {
                 0 => 1,
@@ -469,7 +495,7 @@ impl EncodingVersion for EncodingVersion2 {
                 if lc == 5 {
                     deserializer.reader.pos -= 4;
                 }
-                return Ok(length as u16);
+                return Ok(length);
             } else {
                 deserializer.reader.seek(length as usize)?;
                 Self::align(deserializer, 4)?;
@@ -568,7 +594,7 @@ impl EncodingVersion for EncodingVersion2 {
         Self::align(deserializer, 4)?;
         // TODO: If LC(C)>=4
         //let _next_int = deserializer.deserialize_primitive_type::<u32>();
-        let pid: u16 = member.get_id() as u16;
+        let pid = member.get_id() & MEMBER_ID_MASK;
         let orig_pos = deserializer.reader.pos;
         let result = if Self::seek_to_pid(deserializer, pid).is_ok() {
             deserializer.deserialize_value(member, dynamic_data)
